@@ -2,6 +2,7 @@ package main
 
 import (
 	"fmt"
+	"regexp"
 	"sort"
 	"strings"
 )
@@ -142,7 +143,12 @@ func aggregateE1(rep *Reporter, prop string, cases []*e1Case, res *e1Result, bou
 	// cases whose package could not be generated/compiled are C01's matter
 	excl := []string{}
 	for _, f := range res.Failures {
-		excl = append(excl, fmt.Sprintf("%s [%s] %s", f.Case.Ty.Expr, f.Phase, head(firstErrorLine(f.Output), 160)))
+		excl = append(excl, fmt.Sprintf("%s [%s] %s", caseLabel(f.Case), f.Phase, head(firstErrorLine(f.Output), 160)))
+		if failuresAreViolations[prop] {
+			norm := normErr(firstErrorLine(f.Output))
+			rep.Violation("does-not-"+f.Phase+"|"+norm, fmt.Sprintf("%s: goderive output for this case does not %s: %s", caseLabel(f.Case), f.Phase, head(firstErrorLine(f.Output), 300)),
+				map[string]interface{}{"engine": "e1", "phase": f.Phase, "output": tail(f.Output, 3000), "files": f.Files})
+		}
 	}
 	sort.Strings(excl)
 	rep.Cov["states"] = states
@@ -171,6 +177,31 @@ func aggregateE1(rep *Reporter, prop string, cases []*e1Case, res *e1Result, bou
 	if len(casesRun)+len(res.Failures) < len(cases) {
 		rep.Infra(fmt.Sprintf("only %d of %d cases accounted for", len(casesRun)+len(res.Failures), len(cases)))
 	}
+}
+
+// for these properties a supported signature that cannot be generated or
+// compiled is itself a violation (the statement quantifies over every signature)
+var failuresAreViolations = map[string]bool{"C15": true, "C16": true, "C18": true}
+
+func caseLabel(c *e1Case) string {
+	if c.Ty != nil {
+		return c.Ty.Expr
+	}
+	if s := c.Tags["sig"]; s != "" {
+		return s
+	}
+	return c.ID
+}
+
+var normIDRe = regexp.MustCompile(`_c[0-9]+|\bc[0-9]+\b`)
+var normPosRe = regexp.MustCompile(`[a-zA-Z0-9_./]*\.go:[0-9]+:[0-9]+:? ?`)
+var normNumRe = regexp.MustCompile(`[0-9]+`)
+
+func normErr(s string) string {
+	s = normPosRe.ReplaceAllString(s, "")
+	s = normIDRe.ReplaceAllString(s, "_ID")
+	s = normNumRe.ReplaceAllString(s, "N")
+	return head(s, 140)
 }
 
 // crossProcessTables compares the complete hash tables of the two harness processes.
